@@ -19,12 +19,30 @@ static inline bool wf_flags(const RegisterState *r)
 {
     return r->fz <= 1 && r->fm <= 1 && r->fn <= 1 && r->fv <= 1 && r->fe <= 1 && r->fc0 <= 1 && r->fc1 <= 1 && r->flm <= 1 && r->fvl <= 1 && r->fr <= 1;
 }
+/* the two-way banks hold values that bankr / cntx exchange into the live registers: they are within the same widths
+ * (order of the swap list: register.h shadow_swap_registers) */
+#define WF_SHADOW_ARX(f, rn_max) (r->f.rni <= (rn_max) && r->f.rnj <= (rn_max) && r->f.stepi <= 7 && r->f.stepj <= 7 && r->f.offseti <= 3 && r->f.offsetj <= 3)
+static inline bool wf_shadows(const RegisterState *r)
+{
+    if (!WF_SHADOW_ARX(shadow_swap_ar0, 7) || !WF_SHADOW_ARX(shadow_swap_ar1, 7)) return false;
+    if (!WF_SHADOW_ARX(shadow_swap_arp0, 3) || !WF_SHADOW_ARX(shadow_swap_arp1, 3) || !WF_SHADOW_ARX(shadow_swap_arp2, 3) || !WF_SHADOW_ARX(shadow_swap_arp3, 3)) return false;
+    if (r->shadow_swap_registers.base_0.shadow > 3 || r->shadow_swap_registers.base_1.shadow > 1 || r->shadow_swap_registers.base_2.shadow > 1 || r->shadow_swap_registers.base_3.shadow > 3 ||
+        r->shadow_swap_registers.base_4.shadow > 1 || r->shadow_swap_registers.base_5.shadow.e[0] > 3 || r->shadow_swap_registers.base_5.shadow.e[1] > 3 || r->shadow_swap_registers.base_6.shadow > 0xFF ||
+        r->shadow_swap_registers.base_7.shadow > 1 || r->shadow_swap_registers.base_8.shadow > 1 || r->shadow_swap_registers.base_12.shadow > 1 || r->shadow_swap_registers.base_13.shadow > 1 ||
+        r->shadow_swap_registers.base_14.shadow > 1) return false;
+    for (int i = 0; i < 8; i++) if (r->shadow_swap_registers.base_9.shadow.e[i] > 1 || r->shadow_swap_registers.base_10.shadow.e[i] > 1) return false;
+    for (int i = 0; i < 3; i++) if (r->shadow_swap_registers.base_11.shadow.e[i] > 1) return false;
+    return r->shadow_registers.base_0.shadow <= 1 && r->shadow_registers.base_1.shadow <= 1 && r->shadow_registers.base_2.shadow <= 1 && r->shadow_registers.base_3.shadow <= 1 && r->shadow_registers.base_4.shadow <= 1 &&
+           r->shadow_registers.base_5.shadow <= 1 && r->shadow_registers.base_6.shadow <= 1 && r->shadow_registers.base_7.shadow <= 1 && r->shadow_registers.base_8.shadow <= 1 && r->shadow_registers.base_9.shadow <= 1;
+}
+/* prpage is NOT part of the invariant: the code stores all 16 bits (pop_prpage, mov to prpage) and never masks them -- see the C18 finding
+ * fetch-prpage; obligations that depend on the program page state their own condition */
 static inline bool wf_regs(const RegisterState *r)
 {
     if (!is_sx40(r->a.e[0]) || !is_sx40(r->a.e[1]) || !is_sx40(r->b.e[0]) || !is_sx40(r->b.e[1]) || !is_sx40(r->a1s) || !is_sx40(r->b1s)) return false;
     if (!wf_flags(r)) return false;
     if (r->sat > 1 || r->sata > 1 || r->s > 1 || r->hwm > 3 || r->ps.e[0] > 3 || r->ps.e[1] > 3 || r->pe.e[0] > 1 || r->pe.e[1] > 1) return false;
-    if (r->pc >= 0x40000 || r->prpage > 15 || r->cpc > 1 || r->crep > 1 || r->ccnta > 1 || r->pcmhi > 3 || r->page > 0xFF) return false;
+    if (r->pc >= 0x40000 || r->cpc > 1 || r->crep > 1 || r->ccnta > 1 || r->pcmhi > 3 || r->page > 0xFF) return false;
     if (r->bcn > 4 || r->lp > 1 || r->lp != (r->bcn != 0)) return false;
     for (int i = 0; i < 4; i++) if (r->bkrep_stack.e[i].start >= 0x40000 || r->bkrep_stack.e[i].end >= 0x40000) return false;
     if (r->stepi > 0x7F || r->stepj > 0x7F || r->modi > 0x1FF || r->modj > 0x1FF || r->stepib > 0x7F || r->stepjb > 0x7F || r->modib > 0x1FF || r->modjb > 0x1FF) return false;
@@ -37,6 +55,6 @@ static inline bool wf_regs(const RegisterState *r)
     if (r->ipv > 1 || r->imv > 1 || r->nimc > 1 || r->ie > 1 || r->mod0_unk_const > 7) return false;
     for (int i = 0; i < 5; i++) if (r->ou.e[i] > 1) return false;
     if (r->iu.e[0] > 1 || r->iu.e[1] > 1) return false;
-    return true;
+    return wf_shadows(r);
 }
 #endif
